@@ -96,12 +96,13 @@ Theorem c04_spec_holds : forall E,
   (forall n t, sq_rbto E n t = ref_rbto n t) ->
   (forall l, bal false l = true -> pool E l = (0, 0)) ->
   forall C, c_nosp C = false -> c_soft C = false ->
-  forall fault manual p extra o x s,
+  forall fault manual p extra o x s opts,
   run_top E C fault manual p extra (init_st []) = (o, x, s) ->
   scoped [] p = true -> plain_prog p = true ->
   x_rb (s_fl s) = false -> x_drop (s_fl s) = false ->
   spec_holds (mk_case manual p extra [] C None o x [] (s_db s)
-                (fst (pool E (rev (s_txlog s)))) (snd (pool E (rev (s_txlog s)))) (rev (s_ops s))) = true.
+                (fst (pool E (rev (s_txlog s)))) (snd (pool E (rev (s_txlog s)))) (rev (s_ops s))
+                opts (begin_opt opts) None) = true.
 Proof. exact spec_holds_model. Qed.
 Print Assumptions c04_spec_holds.
 
